@@ -283,6 +283,12 @@ def drivers():
     def _(p, out, serial):
         from amr_kitchen.chk2plt import chk2plt
         chk2plt(p["K"], species=["H2", "O2"], gradp=True, species_reactions=True, floor_massfracs=True, pltdir=out)
+
+    @reg("chk2plt.options")
+    def _(p, out, serial):
+        # every option away from its default
+        from amr_kitchen.chk2plt import chk2plt
+        chk2plt(p["K"], species=["H2", "O2"], gradp=False, species_reactions=True, floor_massfracs=False, pltdir=out)
     return D
 
 
@@ -341,7 +347,7 @@ def real_pool_phase(chk, D, names, refs):
             # workers that do not inherit the parent's memory (start method "spawn": the default outside Linux): what a worker
             # needs has to reach it through its task
             if not name.startswith("taste.bad") and (chk.tier != "quick" or name in ("whip", "colander.tail", "combine.byfile", "mandoline.plate",
-                                                                                     "pestle", "reader.select", "chk2plt")):
+                                                                                     "pestle", "reader.select", "chk2plt", "chk2plt.options")):
                 jobs.append((name, n, "spawn"))
 
     def one(job):
@@ -481,6 +487,11 @@ def run(chk, replay):
         # serial and parallel cooks of two recipe files of the same name in one process, with chef's cached pool (RecipeCache.tla)
         from checks import c11
         c11.recipe_histories(chk)
+        # serial and pooled runs alternate on plotfiles typed under one relative name in several directories (PoolEnv.tla): what a
+        # serial run leaves in the process must not reach the next run, and both give the result of the directory they run in
+        from harness import poolenv
+        for t_ in ['mandoline-return', 'mandoline2d']:
+            poolenv.tool_phase(chk, t_)
     # pool usage traces must be behaviours of Pool.tla
     tf = os.path.join(chk.scratch, "pool_trace.ndjson")
     with open(tf, "w") as f:
